@@ -66,7 +66,7 @@ func (inline *Inline) Text(source []byte) string {
 	case TextKind, RawHTMLKind:
 		return string(spanSlice(source, inline.Span()))
 	case CharacterReferenceKind:
-		return html.UnescapeString(string(spanSlice(source, inline.Span())))
+		return unescapeCharacterReference(string(spanSlice(source, inline.Span())))
 	case SoftLineBreakKind:
 		if inline.Span().Len() == 0 {
 			return "\n"
@@ -88,7 +88,7 @@ func (inline *Inline) Text(source []byte) string {
 			case TextKind:
 				sb.Write(spanSlice(source, child.Span()))
 			case CharacterReferenceKind:
-				sb.WriteString(html.UnescapeString(string(spanSlice(source, child.Span()))))
+				sb.WriteString(unescapeCharacterReference(string(spanSlice(source, child.Span()))))
 			}
 		}
 		return sb.String()
@@ -723,8 +723,21 @@ func parseCharacterEscape(text []byte) (end int) {
 	return -1
 }
 
+// unescapeCharacterReference decodes a single character reference.
+// html.UnescapeString leaves "&nLt;" and "&nGt;" alone
+// (the only two HTML5 entities whose replacement is wider than their name).
+func unescapeCharacterReference(s string) string {
+	switch s {
+	case "&nLt;":
+		return "\u226a\u20d2"
+	case "&nGt;":
+		return "\u226b\u20d2"
+	}
+	return html.UnescapeString(s)
+}
+
 func isEntity(x []byte) bool {
-	s := html.UnescapeString(string(x))
+	s := unescapeCharacterReference(string(x))
 	if s == string(x) {
 		return false
 	}
